@@ -952,6 +952,13 @@ func runC12(r *Run) {
 		{"unknown-json-number", func() []bexpr.Option {
 			return []bexpr.Option{bexpr.WithUnknownValue(json.Number("1")), bexpr.WithTagName("bexpr")}
 		}},
+		// option lists of 3 and 5-7 entries (slices that grow by doubling keep a spare slot at these lengths), local variables among them
+		{"locals-3", func() []bexpr.Option {
+			return []bexpr.Option{bexpr.WithLocalVariable("lv1", nil, 1), bexpr.WithLocalVariable("lv2", []string{"A"}, nil), bexpr.WithLocalVariable("lv3", nil, "x")}
+		}},
+		{"locals-6", func() []bexpr.Option {
+			return []bexpr.Option{bexpr.WithLocalVariable("lv1", nil, 1), bexpr.WithTagName("bexpr"), bexpr.WithLocalVariable("lv2", []string{"A"}, nil), bexpr.WithLocalVariable("lv3", nil, "x"), bexpr.WithMaxExpressions(0), bexpr.WithLocalVariable("lv4", nil, nil)}
+		}},
 	}
 	data = append(data, map[string]interface{}{"A": 1.0, "B": "aaa", "LI": []interface{}{1.0, uint8(1), 1}}, map[string]interface{}{"A": uint8(1), "LI": []interface{}{uint64(1), 1.5}}, map[string]interface{}{"A": "1", "LI": []interface{}{"1", int8(1)}},
 		map[string]interface{}{"A": float32(1), "LI": []interface{}{float32(1), 1.0}}, map[string]interface{}{"A": json.Number("1"), "LI": []interface{}{json.Number("1"), true}})
